@@ -10,7 +10,11 @@ LABELSETS = [[0, 1, 2], ['a', 'b', 'c'], [9, 10, 11], [10, 2, 33, 4], ['x', 'y',
 
 
 def mc_case(rng, i):
-    case = zoo.random_case(rng, target='continuous', variants=False, n=rng.choice([60, 90, 120]))
+    case = zoo.random_case(rng, target='continuous', variants=(i % 2 == 1), n=rng.choice([60, 90, 120]))
+    if i % 3 == 2 and 'c_cat' in case['qualitative']:
+        # a previous discretization of a plain (non-ordinal) qualitative feature: pre-grouped modalities handed over through values_orders
+        seen = [v for v in dict.fromkeys(case['X']['c_cat'].tolist() + (case['X_dev']['c_cat'].tolist() if case['X_dev'] is not None else [])) if isinstance(v, str)]
+        if len(seen) >= 3: case['values_orders']['c_cat'] = {seen[0]: [seen[1], seen[0]], **{v: [v] for v in seen[2:]}}
     labels = LABELSETS[i % len(LABELSETS)]
     def to_cls(y):
         r = y.rank(method='first'); q = pd.qcut(r, len(labels), labels=False)
@@ -58,6 +62,13 @@ def one(arg):
     except AssertionError: return recs
     except Exception as e:
         rec('MulticlassCarver.fit#raises.only_AssertionError', False, 'MulticlassCarver raised %s: %s | %s' % (type(e).__name__, str(e)[:150], traceback.format_exc()[-400:].replace('\n', ' / '))); return recs
+    # transforming an already transformed frame gives the same columns (they are rebuilt from the unchanged raw columns)
+    try:
+        again = mc.transform(out)
+        same = all(series_list(again[c_]) == series_list(out[c_]) for c_ in out.columns)
+        rec('MulticlassCarver.transform#post.class_columns_rebuilt_from_raw_columns', same, 'transform(transform(X)) differs from transform(X)')
+    except Exception as e:
+        rec('MulticlassCarver.transform#post.class_columns_rebuilt_from_raw_columns', False, 'transform of an already transformed frame raised %s: %s' % (type(e).__name__, str(e)[:120]))
     classes = sorted(str(c) for c in pd.unique(y))[1:]
     raw = ob.features_of(case)
     for f in raw:
@@ -72,6 +83,15 @@ def one(arg):
             bout = bc.transform(X)
         except Exception as e:
             rec('skip', True, ''); continue
+        # a frame with a modality never seen at fit: both must treat it alike (default group or rejection)
+        quali = [f for f in case['qualitative'] if all(isinstance(v, str) for v in X[f].dropna())]
+        if quali:
+            Xu = X.iloc[:3].copy(); Xu.loc[Xu.index[0], quali[0]] = 'never_seen_modality'
+            from rtc.battery import outcome
+            a = outcome(lambda: bc.transform(Xu)); b = outcome(lambda: mc.transform(Xu)); colu = '%s_%s' % (quali[0], c)
+            if quali[0] in bc.features and colu in mc.features:
+                ok_u = a[0] == b[0] and (a[0] != 'ok' or series_list(a[1][quali[0]]) == series_list(b[1][colu]))
+                rec('MulticlassCarver.transform#post.unseen_modality_treated_like_the_binary_carver', ok_u, 'class %s feature %s: BinaryCarver %s, MulticlassCarver %s' % (c, quali[0], a[0], b[0]), dict(feature=quali[0], cls=c))
         for f in raw:
             col = '%s_%s' % (f, c); kept_b = f in bc.features; kept_m = col in mc.features
             rec('MulticlassCarver.fit#post.class_column_kept_iff_binary_carver_keeps_feature', kept_b == kept_m, 'class %s feature %s: BinaryCarver keeps=%s, MulticlassCarver has %s=%s' % (c, f, kept_b, col, kept_m), dict(feature=f, cls=c))
